@@ -107,7 +107,7 @@ func suiteConformanceFacts(c *Ctx) {
 		c.Stat("raw model operation call site")
 		c.Nontrivial(k)
 		if !ok {
-			c.Fail("histories-are-conformant", "conformance:unreviewed-raw-model-call",
+			c.Fail("structural:histories-are-conformant", "conformance:unreviewed-raw-model-call",
 				"a raw proposal/accept/revert operation of the model is called from a site that is not on the reviewed list: "+k+
 					" — the catchment theorems assume every proposal is accepted or reverted before the next mutating operation; review the new caller and add it to reviewedRawCalls in harness/cmd/suite_conformance.go", []string{"rawcall " + k})
 		}
@@ -116,13 +116,13 @@ func suiteConformanceFacts(c *Ctx) {
 	for k := range reviewedRawCalls {
 		if !found[k] {
 			c.Op("rawcall-missing "+strings.ReplaceAll(k, " ", "_"), "0")
-			c.Fail("histories-are-conformant", "conformance:reviewed-call-site-gone",
+			c.Fail("structural:histories-are-conformant", "conformance:reviewed-call-site-gone",
 				"a reviewed call site no longer exists (the explorer's proposal protocol changed; re-review): "+k, []string{"rawcall-missing " + k})
 		}
 	}
 	// the single-objective explorer's protocol: TryRandomChange = propose; then exactly one accept or revert on every path
 	if kirkFile == nil {
-		c.Fail("histories-are-conformant", "conformance:kirkpatrick-explorer-not-found", "kirkpatrick/Explorer.go not found", nil)
+		c.Fail("structural:histories-are-conformant", "conformance:kirkpatrick-explorer-not-found", "kirkpatrick/Explorer.go not found", nil)
 		return
 	}
 	funcs := map[string]*ast.FuncDecl{}
@@ -146,7 +146,7 @@ func suiteConformanceFacts(c *Ctx) {
 		c.Op("protocol "+name, b2s(ok))
 		c.Nontrivial("protocol " + name)
 		if !ok {
-			c.Fail("histories-are-conformant", "conformance:kirkpatrick-protocol-changed:"+name, detail, []string{"protocol " + name})
+			c.Fail("structural:histories-are-conformant", "conformance:kirkpatrick-protocol-changed:"+name, detail, []string{"protocol " + name})
 		}
 	}
 	if fd := funcs["TryRandomChange"]; fd != nil {
